@@ -138,6 +138,9 @@ func (c *twistPoint) Double(a *twistPoint) {
 	B := (&gfP2{}).Square(&a.y)
 	C := (&gfP2{}).Square(B)
 
+	// y·z of the input, taken before c.y is written: c may alias a
+	yz := (&gfP2{}).Mul(&a.y, &a.z)
+
 	t := (&gfP2{}).Add(&a.x, B)
 	t2 := (&gfP2{}).Square(t)
 	t.Sub(t2, A)
@@ -157,8 +160,7 @@ func (c *twistPoint) Double(a *twistPoint) {
 	t2.Mul(e, &c.y)
 	c.y.Sub(t2, t)
 
-	t.Mul(&a.y, &a.z)
-	c.z.Add(t, t)
+	c.z.Add(yz, yz)
 }
 
 func (c *twistPoint) Mul(a *twistPoint, scalar *big.Int) {
